@@ -10,6 +10,14 @@ TRUSTED = ('trusted base: the Python reference models under vf/ref (self-tested 
 
 # id -> (level, technique, text, design_ref, note)
 CHECKS = {
+    'C01': ('exploration',
+            'sanitized execution (ASan+UBSan) with an independent GB/T 32918.2 model fed the same interposed entropy; '
+            'soundness decided as library-accepts => reference-accepts over complete bit-flip neighbourhoods',
+            'Each signing interface (do_sign, sign, sign_fixlen, streaming context incl. reset, 33+ finishes and '
+            'fixed-length finish) is run with forced/logged nonces and its output compared with the reference (r,s) and '
+            'DER; every signature is offered to all verification interfaces; negatives enumerate every bit of DER, '
+            'message and ID, boundary (r,s) pairs, DER mutants, foreign keys and ID-length neighbours.',
+            '4/C01', TRUSTED),
     'C03': ('exploration',
             'sanitized execution (ASan+UBSan) with reference-model oracle (hashlib / independent SM3) over seeded chunkings',
             'Every digest/HMAC/PBKDF2/HKDF/KDF interface is run on dense length ranges under one-shot, byte-wise, '
